@@ -309,7 +309,8 @@ class C06(Machine):
                     if rotate else sq
                 for qn, qk in picks:
                     # call-site pattern rotates with the step
-                    qk = dict(qk, **{"@pos": (step + 1) % 3})
+                    qk = dict(qk, **{"@pos": (step + 1) % 4,
+                                     "@k": (step + 1) // 4})
                     rk = (sname, qkey(qn, qk))
                     smodel = {"n": so.N if sspec.name == "GeoGrid"
                               else so.grid.N}
